@@ -99,7 +99,11 @@ class UntypedAtomic(AnyAtomicType):
                 return op(self.value, other)
             case AnyAtomicType():
                 if hasattr(other, 'make'):
-                    return op(type(other).make(self.value, parser=self.parser), other)
+                    try:
+                        value = type(other).make(self.value, parser=self.parser)
+                    except KeyError as err:
+                        raise ValueError(f"unknown namespace prefix {err} in {self.value!r}")
+                    return op(value, other)
                 else:
                     return op(type(other)(self.value), other)
             case _:
